@@ -1632,14 +1632,17 @@ def layer_c(ck, stats):
                         lists += [[x, y] for x in CROSS_NAMES for y in CROSS_NAMES if x != y and (diagonal or x < y)]
                     elif (sf, xf) in (('pos', 'arr'), ('mixed', 'files')):
                         lists += [[x, y] for x in mentioned for y in mentioned if x < y]
+                    own, other = ('Tsrc', 'Txf') if op.startswith('src') else ('Txf', 'Tsrc')
                     for files in lists:
+                        # a removal whose every name is absent from the addressed list but present in the other list of the target
+                        wrong_list_rm = op.endswith('_rm') and all(other in w and own not in w for w in (cross_where(rd, tname, f) for f in files))
                         for form in (forms if len(files) == 1 else ('cli',)):
                             cases.append({'id': 'C/%s+%s/%s/%s/%s/%s' % (sf, xf, form, tname, op, ','.join(files)), 'layer': 'C',
                                           'text': text, 'cmds': [c_target(tname, op, files)], 'form': form, 'observe': 'if-changed',
-                                          'family': 'cross:%s:%s' % (op, 'pair' if len(files) > 1 else 'single')})
+                                          'family': 'cross:%s:%s' % (op, 'pair' if len(files) > 1 else 'single'),
+                                          'wrong_list_rm': wrong_list_rm})
                         n['single_name' if len(files) == 1 else 'two_names'] += 1
                         n['second_target_addressed'] += tname == 'lib'
-                        own, other = ('Tsrc', 'Txf') if op.startswith('src') else ('Txf', 'Tsrc')
                         for f in files:
                             w = cross_where(rd, tname, f)
                             n['name_in_own_list'] += own in w and other not in w
@@ -1734,7 +1737,11 @@ def main():
         ck.require(cstats['name_only_in_other_target'] > 100, 'no list operation was given a name that only another target lists')
         ck.require(cstats['two_names'] > 100 and cstats['second_target_addressed'] > 100, 'two-name commands / the second target were not exercised')
         unchanged_c = sum(1 for c in cases if c['layer'] == 'C' and finals[c['id']])
-        ck.part('layerC', file_left_unchanged=unchanged_c)
+        wl = [c for c in cases if c.get('wrong_list_rm')]
+        wl_kept = sum(1 for c in wl if finals[c['id']])
+        ck.part('layerC', file_left_unchanged=unchanged_c, removals_naming_only_files_of_the_other_list=len(wl),
+                of_which_left_the_file_byte_identical=wl_kept)
+        ck.require(len(wl) > 50, 'no removal named a file that only the other list of the target holds')
         ck.require(0 < unchanged_c < len([c for c in cases if c['layer'] == 'C']), 'layer C: every / no command changed the file')
     if not ck.args.only:
         ck.require(total['edited_statements'] > 100, 'few edited statements were compared')
